@@ -459,6 +459,8 @@ tfpdeftests1:
 		$$ = append($$, $3)
 		if $<expr>3 != nil {
 			$<exprs>$ = append($<exprs>$, $<expr>3)
+		} else if len($<exprs>$) > 0 {
+			yylex.(*yyLex).SyntaxError("non-default argument follows default argument")
 		}
 	}
 
@@ -552,6 +554,8 @@ vfpdeftests1:
 		$$ = append($$, $3)
 		if $<expr>3 != nil {
 			$<exprs>$ = append($<exprs>$, $<expr>3)
+		} else if len($<exprs>$) > 0 {
+			yylex.(*yyLex).SyntaxError("non-default argument follows default argument")
 		}
 	}
 
@@ -1850,6 +1854,9 @@ arguments:
 	}
 |	arguments ',' argument
 	{
+		if len($3.Args) > 0 && len($$.Keywords) > 0 {
+			yylex.(*yyLex).SyntaxError("non-keyword arg after keyword arg")
+		}
 		$$.Args = append($$.Args, $3.Args...)
 		$$.Keywords = append($$.Keywords, $3.Keywords...)
 	}
